@@ -301,7 +301,7 @@ def rule_b(ctx: Context, R: Reporter, cc: ClassInfo, v: FuncInfo):
                     accepted[fld] = s
     R.floor("C18.b", "validated enumerations", len(accepted), 2)
     T = Tracer(ctx)
-    dispatch: Dict[str, List[Tuple[FuncInfo, ast.Compare, object, str]]] = {f: [] for f in accepted}
+    dispatch: Dict[str, List[tuple]] = {f: [] for f in accepted}
     for fi in ctx.prog.functions.values():
         if fi.cls is cc:
             continue
@@ -312,6 +312,26 @@ def rule_b(ctx: Context, R: Reporter, cc: ClassInfo, v: FuncInfo):
                 roots = [nd.ast]
             elif nd.ast is not None and nd.kind == "stmt" and not isinstance(nd.stmt, (ast.FunctionDef, ast.ClassDef)):
                 roots = [x.test for x in ast.walk(nd.ast) if isinstance(x, ast.IfExp)]
+            # dispatch tables: TABLE[field] / TABLE.get(field[, default]) with TABLE a dict display with string keys
+            if nd.ast is not None and nd.kind in ("stmt", "test") and not isinstance(getattr(nd, "stmt", None), (ast.FunctionDef, ast.ClassDef)):
+                for x in ast.walk(nd.ast):
+                    tbl = keyexpr = None
+                    default = False
+                    if isinstance(x, ast.Subscript) and isinstance(x.ctx, ast.Load):
+                        tbl, keyexpr = x.value, x.slice
+                    elif isinstance(x, ast.Call) and isinstance(x.func, ast.Attribute) and x.func.attr == "get" and x.args:
+                        tbl, keyexpr, default = x.func.value, x.args[0], len(x.args) > 1
+                    if isinstance(tbl, ast.Name) and tbl.id in fi.module.constants:
+                        tbl = fi.module.constants[tbl.id]
+                    if not (isinstance(tbl, ast.Dict) and tbl.keys and all(isinstance(k, ast.Constant) and isinstance(k.value, str) for k in tbl.keys)):
+                        continue
+                    origs = T.origins(fi, keyexpr, nd)
+                    for o in origs:
+                        for ch in o.chain:
+                            for fld in accepted:
+                                if ch.startswith(f"{cc.name}({fld}=") or ch.startswith(f"{cc.name}.{fld} "):
+                                    for k in tbl.keys:
+                                        dispatch[fld].append((fi, x, nd, k.value, "table-default" if default else "table"))
             for a in [y for r0 in roots for y in ast.walk(r0)]:
                 if isinstance(a, ast.Compare) and len(a.ops) == 1 and isinstance(a.ops[0], (ast.Eq, ast.NotEq)):
                     lit = None
@@ -327,7 +347,7 @@ def rule_b(ctx: Context, R: Reporter, cc: ClassInfo, v: FuncInfo):
                         for ch in o.chain:
                             for fld in accepted:
                                 if ch.startswith(f"{cc.name}({fld}=") or ch.startswith(f"{cc.name}.{fld} "):
-                                    dispatch[fld].append((fi, a, nd, lit))
+                                    dispatch[fld].append((fi, a, nd, lit, "cmp"))
                         if o.kind == "user":
                             for fld in accepted:
                                 if o.detail.startswith(f"parameter {fld} of") and any(ch.startswith(f"{cc.name}({fld}=") for ch in o.chain):
@@ -336,8 +356,8 @@ def rule_b(ctx: Context, R: Reporter, cc: ClassInfo, v: FuncInfo):
         sites = dispatch[fld]
         # de-duplicate
         uniq = {}
-        for (fi, a, nd, lit) in sites:
-            uniq[(fi.qualname, id(a))] = (fi, a, nd, lit)
+        for (fi, a, nd, lit, kind) in sites:
+            uniq[(fi.qualname, id(a), lit)] = (fi, a, nd, lit, kind)
         sites = list(uniq.values())
         R.check("C18.b", f"enumeration `{fld}` is dispatched on somewhere", bool(sites), v, v.node, msg=f"no run-time dispatch on configuration field `{fld}` found", key=f"dispatch-exists:{fld}")
         by_func: Dict[str, List] = {}
@@ -353,6 +373,11 @@ def rule_b(ctx: Context, R: Reporter, cc: ClassInfo, v: FuncInfo):
             flow = flow_of(fi.node)
             has_else = False
             for s in lst:
+                if s[4] == "table":
+                    continue  # a missing key raises KeyError at run time: all accepted values must be keys
+                if s[4] == "table-default":
+                    has_else = True
+                    continue
                 ifn = s[2].stmt
                 if not isinstance(ifn, ast.If):
                     has_else = True  # conditional expression: the other branch is the else
